@@ -24,10 +24,14 @@ RB == [k |-> "rb"]
 RECURSIVE Dbl(_, _, _)
 Dbl(s, q, i) == IF i > Len(s) THEN <<>> ELSE (IF s[i] = q THEN <<q, q>> ELSE <<s[i]>>) \o Dbl(s, q, i + 1)
 LitText(c) == QuoteString(c)                                   \* ' doubled, \ doubled
+\* the other spelling of a literal: quote and backslash escaped with a backslash
+RECURSIVE BsEsc(_, _)
+BsEsc(s, i) == IF i > Len(s) THEN <<>> ELSE (IF s[i] = SQ \/ s[i] = BS THEN <<BS, s[i]>> ELSE <<s[i]>>) \o BsEsc(s, i + 1)
+LitText2(c) == <<SQ>> \o BsEsc(c, 1) \o <<SQ>>
 IdMy(c) == <<BT>> \o Dbl(c, BT, 1) \o <<BT>>
 IdPG(c) == <<DQ>> \o Dbl(c, DQ, 1) \o <<DQ>>                   \* standard SQL: a quote inside is doubled
 Render(ts, pg, br) ==
-    LET one(t) == CASE t.k = "lit" -> LitText(t.c)
+    LET one(t) == CASE t.k = "lit" -> IF "bs" \in DOMAIN t THEN LitText2(t.c) ELSE LitText(t.c)
                     [] t.k = "id"  -> IF pg THEN IdPG(t.c) ELSE IdMy(t.c)
                     [] t.k = "lb"  -> IF br THEN <<91>> ELSE ARRAYP
                     [] t.k = "rb"  -> IF br THEN <<93>> ELSE <<41>>
@@ -38,7 +42,7 @@ Render(ts, pg, br) ==
 LitAlpha == {97, DQ, SQ, BT, BS, 91, 93}
 IdAlpha  == {97, DQ, SQ, BT, 91, 93, 32}
 Contents(A, lo) == UNION {[1..n -> A] : n \in lo..MaxContent}
-Lits == {Lit(c) : c \in Contents(LitAlpha, 0)}
+Lits == {Lit(c) : c \in Contents(LitAlpha, 0)} \cup {[k |-> "lit", c |-> c, bs |-> TRUE] : c \in Contents(LitAlpha, 1)}
 Ids  == {Id(c) : c \in Contents(IdAlpha, 1)}
 \* identifier / literal pairs for the quoting option
 QuoteSeqs == {<<a>> : a \in Lits \cup Ids} \cup {<<a, Ch(44), b>> : a \in Ids, b \in Lits \cup Ids} \cup {<<a, Ch(61), b>> : a \in Lits, b \in Ids}
